@@ -811,6 +811,12 @@ func (g *G) listExpr(d int) *sx.N {
 			xs[i] = g.expr(TInt, d-1)
 		}
 		return sx.Call("list", xs...)
+	case 12:
+		g.feat("stable-sort")
+		return sx.Call("stable-sort", sx.Y(fw.Pick(g.R, []string{"<", ">", "<=", ">="})), sx.Call("list", g.expr(TInt, d-1), g.smallInt(-5, 9), g.smallInt(-5, 9), g.expr(TInt, d-1)))
+	case 13:
+		g.feat("stable-sort-key")
+		return sx.Call("stable-sort", sx.Y("<"), sx.Call("list", g.smallInt(-5, 9), g.smallInt(-5, 9), g.smallInt(-5, 9)), sx.Y("-"))
 	case 11:
 		g.feat("rest-args")
 		return sx.L(sx.Call("lambda", sx.L(sx.Y("&rest"), sx.Y("xs")), sx.Y("xs")), g.expr(TInt, d-1), g.expr(TInt, d-1))
